@@ -165,7 +165,7 @@ CHECKS = {
         design='5/C16'),
     'C15': dict(
         technique='TLA+ model of read_packet with end of stream at every offset (Framing.tla: safety + liveness, the pre-fix loop '
-                  'must fail) checked by TLC; five reference conversations cut at every byte offset run against the real client '
+                  'must fail; FramingReset.tla: a TCP reset at any point, a readiness call blind to error bits must fail) checked by TLC; five reference conversations cut at every byte offset run against the real client '
                   'under a deterministic scheduler where hang / spin / blocking are observable outcomes; runs validated against '
                   'Trace_Framing.tla by TLC (I->S)',
         text='Framing.tla with EofArrive enabled at every offset: NoPartialDelivery, BoundedReadsAfterEof, AllCompleteDelivered and the '
